@@ -10,9 +10,10 @@ Tie to /repo, re-checked on every run:
       slice_rgbd_targets; quantised depth, masks, targets and all-in-focus target are compared
       EXACTLY (integers / booleans; image values are k/256 so that x*1 and x*0 are exact).
       Depth maps contain 0, 1, k/(n-1), k/(n-1) +- 0.5/(n-1) +- ulp.
-  B1  set_targets (both classes) and slice_rgbd_targets are cut from the current source, executed
-      symbolically at 2x2x{1,3} and the emitted Coq definitions are proved equal to the model for all
-      reals (coq/tie/C16_Tie*.v), with the property restated on the traced definitions.
+  B1  set_targets (both classes), slice_rgbd_targets and add_defocus_blur (conv2d with the Gaussian
+      kernel as an uninterpreted operator) are cut from the current source, executed symbolically at
+      2x2x{1,3} and the emitted Coq definitions are proved equal to the model for all reals
+      (coq/tie/C16_Tie*.v), with the property restated on the traced definitions.
 Direct oracles state every clause of the property on the real implementation.
 """
 import ast, fractions, json, math, re
